@@ -52,7 +52,8 @@ def showParams (p : Params) : String :=
 def step (w : W) (toks : List String) : W × String :=
   match toks with
   | ["m.cfg", denom, start] =>
-    match int? start with
+    -- "zero" is Go's zero `time.Time` (1 January of year 1), far outside the int64 nanosecond range
+    match (if start = "zero" then some (-62135596800000000000 : Int) else int? start) with
     | some s => ({ w with raw := { denom := unesc denom, start := s, minters := [] } }, ".")
     | none => (w, "bad-op")
   | "m.period" :: "nilminter" :: [] =>
